@@ -674,7 +674,16 @@ class SymExec:
                 return self.ev(e.body, st, module, depth)
             if d is False:
                 return self.ev(e.orelse, st, module, depth)
-            return ("ifexp", c, self.ev(e.body, st, module, depth), self.ev(e.orelse, st, module, depth))
+            # undecided conditional expression: fork the path like an ``if`` statement
+            key = (id(e), "ifexp", depth)
+            if key not in st.plan:
+                raise _NeedChoice(key, 2)
+            atom, pol = (c[1], False) if c[0] == "not" else (c, True)
+            if st.plan[key] == 0:
+                st.conds.append((atom, pol))
+                return self.ev(e.body, st, module, depth)
+            st.conds.append((atom, not pol))
+            return self.ev(e.orelse, st, module, depth)
         if hasattr(ast, "Index") and isinstance(e, getattr(ast, "Index")):  # py3.8
             return self.ev(e.value, st, module, depth)
         return ("unk", type(e).__name__)
